@@ -21,15 +21,15 @@ fn main() {
     cx.set_rule(
         "complete enumeration, per exported field type, of: every unary operation over the boundary \
          alphabet {0, 1, 2, p-1, p-2, (p+-1)/2, 2^(64k)-1 / 2^(64k) / 2^(64k)+1 for each limb boundary, R, R^2, \
-         R^3 mod p, each limb all-ones, all limbs all-ones mod p, p-2^64, 2^(bits-1)-1, seeded}; every \
+         R^3 mod p, each limb all-ones, all limbs all-ones mod p, p-2^64, 2^(bits-1)-1, 3, 5, 7, 11, g, g^3, -g, seeded}; every \
          binary operation (all owned / by-reference / in-place spellings) over alphabet^2; checked \
          decoders on encodings of {0, 1, p-2, p-1, p, p+1, p+2^64, 2p-1, 2p, 2p+1, 2^bits-1, 2^bits, all-FF, \
          top bit, one limb of p replaced by ones / zero} and every single-bit flip of the canonical \
          encodings of {0, p-1, (p-1)/2, seeded}; uniform reduction on all single-bit inputs, all-zero, \
          all-FF, lo/hi halves in {0, 1, p-1, p, p+1, 2p, all-FF, R}^2 and seeded; published constants vs \
          their defining equations. Towers: coefficient vectors over {0, 1, -1, seeded} with <= 2 non-zero \
-         coefficients + dense + all(-1) as left operands; right operands are that alphabet (Fp2) or the \
-         <= 1-non-zero part + dense (Fp6, Fp12; full alphabet in the thorough tier for Fp6). \
+         coefficients + dense + all(-1) as left operands; right operands are that alphabet (Fp2, Fp6) or its \
+         <= 1-non-zero part + dense + every 25th (quick) / 3rd (thorough) two-non-zero member (Fp12). \
          An elementary evaluation is non-trivial when no operand is 0 or 1; case keys are unique.",
     );
     cx.assume("the oracle is num-bigint integer arithmetic modulo the stated (well-known) modulus of each curve, written independently of the repository's constants");
